@@ -1366,6 +1366,10 @@ class PE:
             return args[0]                                    # bytes(b) of a bytes value is b
         if f[0] == 'b' and f[1] == 'divmod' and len(args) == 2 and not kw and is_pyint(args[0]) and is_pyint(args[1]):
             return ('tuple', (mk_bin('//', args[0], args[1], self.opts), mk_bin('%', args[0], args[1], self.opts)))
+        if f[0] in ('g', 'b') and f[1] == 'reduce' and len(args) in (2, 3) and not kw and args[0][0] == 'lam' and args[0][1] == 2:
+            r = self.reduce_as_loop(args[0], args[1], args[2] if len(args) == 3 else None)
+            if r is not None:
+                return r
         if self.call_hook is not None:
             r = self.call_hook(self, f, args, kw, env, node)
             if r is not None:
@@ -1387,6 +1391,38 @@ class PE:
             if r is not None:
                 return r
         return ('call', f, args, kw)
+
+    def reduce_as_loop(self, lam, S, init):
+        """reduce(lambda acc, x: e, S, init)  is the loop  acc = init; for x in S: acc = e"""
+        ci = canon_iter(S, self.opts)
+        if S[0] == 'range' and ci is None:
+            ci = canon_seq(S, self.opts)
+        if init is None:
+            if ci is None:
+                return None
+            n, g = ci
+            init = g(C(0))
+            n = mk_bin('+', n, C(-1), self.opts)
+            g0 = g
+            g = lambda k: g0(mk_bin('+', k, C(1), self.opts))
+            ci = (n, g)
+        self.nloops += 1
+        L = self.nloops
+        suf = ('num',) if kind_of(init) == 'num' else ()
+        phi = ('phi', L, 0) + suf
+        if ci is not None:
+            n, g = ci
+            it = ('range', C(0), n, C(1))
+            x = g(('it', L, 'num'))
+        else:
+            it = S
+            x = ('it', L)
+        nxt = self.apply_lambda(lam, [phi, x])
+        if nxt is None:
+            self.nloops -= 1
+            return None
+        self.cur_effects.append(('for', L, it, (init,), (nxt,), (), ()))
+        return ('after', L, 0) + suf
 
     def inline_call(self, fdef, args, kw, env):
         if isinstance(fdef, tuple) and fdef[0] == 'lam':
@@ -2109,6 +2145,21 @@ class PE:
                         else:
                             elt = e2
                         comp = ('comp', 'list', d, elt, tuple(gens))
+                        if isrange and how != 'chain' and is_int(it[2]) and 0 <= it[2][1] <= 256:
+                            # a constant trip count: the comprehension is the list of its elements (as a literal comprehension is)
+                            items, okc = [], True
+                            for k_ in range(it[2][1]):
+                                sub1 = {('bv', d, 0, 'num'): C(k_)}
+                                if conds:
+                                    tv = truth(substitute(conds[0], sub1, self.opts))
+                                    if tv is None:
+                                        okc = False
+                                        break
+                                    if not tv:
+                                        continue
+                                items.append(shift_binders(substitute(elt, sub1, self.opts), d + 1, -1))
+                            if okc:
+                                comp = ('list', tuple(items))
                         init = inits[rank]
                         if how == 'join':
                             empty = C(b'') if isinstance(init[1], bytes) else C('')
@@ -2137,6 +2188,45 @@ class PE:
                     if cond is not None:
                         cond = substitute(cond, ren, self.opts)
                 carried, inits, nexts = keep, inits2, nexts2
+        # ---- attributes of a carried object that the loop never stores are read from the object as it was before the loop
+        #      (hoisting `n = self.size` out of a loop that only updates self.H is the same term)
+        if carried:
+            def written_attrs(N, phi):
+                if N == phi:
+                    return set()
+                if N[0] == 'obj':
+                    w = written_attrs(N[1], phi)
+                    return None if w is None else w | {a[1] for a in N[2]}
+                if N[0] == 'ite':
+                    a_, b_ = written_attrs(N[2], phi), written_attrs(N[3], phi)
+                    return None if a_ is None or b_ is None else a_ | b_
+                return None
+            fwd = {}
+            pool = tuple(nexts) + tuple(body_eff) + ((cond,) if cond is not None else ())
+            for rank, v in enumerate(carried):
+                phi = ('phi', L, rank) + ksuf(inits[rank])
+                W = written_attrs(nexts[rank], phi)
+                if W is None or inits[rank][0] in ('c', 'list', 'tuple', 'dict'):
+                    continue
+                # the object must not be handed to anything that could update it: phi may only occur under attr / its own obj wrappers
+                bare = False
+                for x in walk(pool):
+                    if x[0] in ('call', 'mut', 'do', 'yield', 'tuple', 'list', 'idx', 'upd', 'exit', 'cmp', 'root') and phi in x[1:] :
+                        bare = True
+                        break
+                    if x[0] == 'call' and (phi in x[2] or any(k[2] == phi for k in x[3])):
+                        bare = True
+                        break
+                if bare:
+                    continue
+                for x in walk(pool):
+                    if x[0] == 'attr' and x[1] == phi and x[2] not in W:
+                        fwd[x] = get_attr(inits[rank], x[2])
+            if fwd:
+                nexts = tuple(substitute(x, fwd, self.opts) for x in nexts)
+                body_eff = list(substitute(tuple(body_eff), fwd, self.opts))
+                if cond is not None:
+                    cond = substitute(cond, fwd, self.opts)
         if kind == 'for' and not carried and not body_eff and not s.orelse and pending_folded and not self.has_flow_escape(s.body):
             # nothing is left of the loop: no effect is emitted
             for v in assigned:
@@ -2170,6 +2260,15 @@ class PE:
     def exec_funcdef(self, s, env, effects):
         if self.module_mode:
             env[s.name] = ('g', s.name)
+            return False
+        body = [x for x in s.body if not (isinstance(x, ast.Expr) and isinstance(x.value, ast.Constant))]
+        if len(body) == 1 and isinstance(body[0], ast.Return) and body[0].value is not None and not s.decorator_list \
+                and not s.args.vararg and not s.args.kwarg and not s.args.kwonlyargs \
+                and not any(isinstance(n, (ast.Yield, ast.YieldFrom, ast.Await)) for n in ast.walk(body[0])):
+            # def f(a): return e   is   f = lambda a: e
+            lam = ast.copy_location(ast.Lambda(args=s.args, body=body[0].value), s)
+            ast.fix_missing_locations(lam)
+            env[s.name] = self.ev(lam, env)
             return False
         sub = PE(self.resolve_global, self.global_values, self.unroll, self.opts, self.inline, self.call_hook)
         sub.closures = self.closures + [env]
